@@ -69,6 +69,22 @@ reg("C11", "fault_enumeration",
     "Timeouts 5 s / 1 s hard-coded in the oracle; same-iteration races accept either winner; only _run_once-feasible orders are generated.",
     "DESIGN.md section 3 C11")
 
+reg("C07", "exploration",
+    "complete enumeration of all (version, command) pairs x type-directed boundary value tuples through real command() calls and the real receive path",
+    "All 2 751 version/command pairs: frame-ID injectivity; bytes handed to the gateway == independently written header of that version's layout + declared field serialisations in declared order; "
+    "positional vs keyword (reversed) call forms; the response built from a generated tuple completes the call with exactly those values and no trailing bytes; every rx schema fed as an "
+    "unsolicited frame reaches the callback unchanged. Tuples: all-min / all-max / all-mid, undefined enum values, empty and maximal variable-length fields (thorough: every variant of every field).",
+    "Header layouts typed from UG100 in mc/env/ezspenv.py; payload fields use the declared types' own serialize() (byte-level field independence is C13/C03). invalidCommand is only fed as a frame, not called.",
+    "DESIGN.md section 3 C07")
+
+reg("C08", "exploration",
+    "bounded exhaustive enumeration of malformed frames (mutation family of every rx schema + all short byte strings) through the real EZSP.frame_received in every version",
+    "Per version x {idle, pending getEui64/getValue (thorough: +nop, getConfigurationValue)}: every rx schema x {truncation at every length, each byte XOR 01/80/FF, sequence = pending/+-1, "
+    "frame ID substitution (thorough: every ID 0..0x120)}; all strings of length <= 2 and length 3..5(6) over {00,01,7F,80,FF,pending seq}: never raises, pending call completed only by its own "
+    "sequence+ID with the reference decode, callbacks only for frames the reference decoder decodes fully (same name/args, both callbacks equally), a fresh command still completes afterwards.",
+    "Reference decoder = header layout + schema walk, lenient about frame-control and trailing bytes; abandonment of the pending call on an ID mismatch is accepted.",
+    "DESIGN.md section 3 C08")
+
 ALL = ["C%02d" % i for i in range(1, 21)]
 
 
